@@ -2,6 +2,7 @@ import SJ.Basic
 import SJ.Generated.GoTables
 import SJ.Model.Access
 import SJ.Model.Number
+import SJ.Model.Marshal
 set_option linter.unusedVariables false
 /-
 GoSem — a small imperative language with a big-step interpreter, the target of the Go→Lean translator
@@ -69,6 +70,8 @@ inductive Expr where
   | idxB (a i : Expr)                       -- `a[i]` of a byte slice
   | nilB                                    -- `nil` as a byte slice
   | litB (bs : List Nat)                    -- `[]byte("…")`: the bytes of a string literal
+  | zerosB (n : Nat)                        -- a zeroed `[n]uint8` array, as a slice
+  | pushB (a e : Expr)                      -- `append(a, e)` for one byte `e`
   | le32 (a : Expr)                         -- `binary.LittleEndian.Uint32(a)` (a uint32 is carried as a `u64` below 2^32)
   | lenK (a : Expr)                         -- `len(m)` of a key set
   | inK (m k : Expr)                        -- `_, ok := m[string(k)]`
@@ -88,6 +91,9 @@ inductive Stmt where
   | copyStruct (dst src : String)                   -- `*dst = *src`
   | ite (c : Expr) (t e : List Stmt)
   | switch (e : Expr) (cases : List (List Expr × List Stmt)) (dflt : List Stmt)
+  | switchL (label : String) (e : Expr) (cases : List (List Expr × List Stmt)) (dflt : List Stmt)
+      -- a labelled `switch`: `break <label>` inside it (also from a nested switch) continues after it
+  | brkL (label : String)                           -- `break <label>` for the label of an enclosing `switch`
   | loop (body : List Stmt)                         -- `for { body }`
   | while (c : Expr) (body : List Stmt)             -- `for c { body }`
   | forc (init : List Stmt) (c : Expr) (post body : List Stmt)   -- `for init; c; post { body }`
@@ -232,6 +238,17 @@ def extCall (name : String) (args : List Val) : Option (List Val) :=
       | some bits => some [.u64 bits, .bool false, .bool false]
       | none => some [.u64 0, .bool true, .bool false]
     else none
+  | [.bytes dst, .bytes src] =>
+    if name == "escapeBytes" then some [.bytes (escapeBytes dst src)] else none
+  | [.bytes dst, .int v] =>
+    if name == "AppendInt" then some [.bytes (dst ++ intToAscii v)] else none       -- strconv.AppendInt(dst, v, 10)
+  | [.bytes dst, .u64 v] =>
+    if name == "AppendUint" then some [.bytes (dst ++ FloatFmt.natToAscii v.toNat)]   -- strconv.AppendUint(dst, v, 10)
+    else if name == "appendFloat" then                                                -- the float64 is carried as its bits
+      match FloatFmt.appendFloat v with
+      | some b => some [.bytes (dst ++ b), .bool false, .bool false]
+      | none => some [.bytes #[], .bool true, .bool false]
+    else none
   | _ => none
 
 /-- the value of `float64(K)` for an untyped integer constant `K` (Go converts the constant to the operand's type:
@@ -321,6 +338,16 @@ def evalE (s : St) : Expr → EOut
     | o => o
   | .nilB => .val (.bytes #[])
   | .litB bs => .val (.bytes (bs.map UInt8.ofNat).toArray)
+  | .zerosB n => .val (.bytes (Array.replicate n 0))
+  | .pushB a e =>
+    match evalE s a with
+    | .val (.bytes x) =>
+      (match evalE s e with
+       | .val (.u8 y) => .val (.bytes (x.push y))
+       | .val _ => .stuck "append operand"
+       | o => o)
+    | .val _ => .stuck "append operand"
+    | o => o
   | .le32 a =>
     match evalE s a with
     | .val (.bytes b) => if b.size < 4 then .panic else .val (.u64 (leU32 b))
@@ -551,6 +578,18 @@ def exec1 (funs : String → Option FunDef) : (fuel : Nat) → Stmt → St → O
     match evalE s e with
     | .val v => execCases funs fuel v cases dflt s
     | o => ofE o
+  | fuel, .switchL label e cases dflt, s =>
+    match evalE s e with
+    | .val v =>
+      (match execCases funs fuel v cases dflt s with
+       | .brk s' =>
+         -- a `break` that names this switch stops here; any other `break` is for the enclosing loop
+         (match s'.env.get ("#break:" ++ label) with
+          | some (.bool true) => .normal { s' with env := s'.env.set ("#break:" ++ label) (.bool false) }
+          | _ => .brk s')
+       | o => o)
+    | o => ofE o
+  | fuel, .brkL label, s => .brk { s with env := s.env.set ("#break:" ++ label) (.bool true) }
   | 0, .loop body, s => .diverge
   | fuel + 1, .loop body, s =>
     match exec funs fuel body s with
